@@ -71,10 +71,14 @@ Definition op_classes (t : sworld) (gone : list path) (o : op) : list klass :=
   | _ => []
   end.
 
+(* the spec says the rename succeeds *)
+Definition rename_ok (t : sworld) (f g : path) : bool :=
+  match snd (srename t f g) with OOk => true | _ => false end.
+
 Definition gone_after (t : sworld) (gone : list path) (o : op) : list path :=
   match o with
   | Unlink p => match nget (names t) p with Some (EFile _) => p :: gone | _ => gone end
-  | Rename f g => match nget (names t) f with Some (EFile _) => f :: g :: gone | _ => gone end
+  | Rename f g => match nget (names t) f with Some (EFile _) => if rename_ok t f g then f :: gone else gone | _ => gone end
   | Crash _ => []
   | _ => gone
   end.
